@@ -67,7 +67,7 @@ def c14(tier, seed):
     try:
         obs = vlib.Obs()
         probe = canary(work, obs)
-        scale = 1 if tier == 'quick' else 12
+        scale = 1 if tier == 'quick' else 60
         srcs = dict(fieldmon=F.fieldmon_sources(work), vssmon=V.vss_sources(), canmon=V.can_sources())
         be = {k: be_build(work, k + '_be', v) for k, v in srcs.items()}
         le = {k: vlib.compile_many(work, k + '_le', v, ['-O0', '-g']) for k, v in srcs.items()}
